@@ -20,7 +20,7 @@ from sexp import Sym
 PROP = "C18"
 READY = True
 DRIVER = "dm_stores"
-LEAN_MODULES = ["DaskModel.Props.C18", "DaskModel.Props.C18b", "DaskModel.Props.C18c"]
+LEAN_MODULES = ["DaskModel.Props.C18", "DaskModel.Props.C18b", "DaskModel.Props.C18c", "DaskModel.Props.C18xUnder"]
 TABLES = ["ByteTables"]
 CASE_TIMEOUT_S = 10
 N0 = 1125894277343089729          # first n whose rendering has 11 characters (Lean: format_len_partial / _refuted)
@@ -35,7 +35,10 @@ LEVEL_TEXT = (
     "is exact). The violation is a known finding (not repaired: the pinned test_format_bytes requires "
     "format_bytes(2**60) == '1024.00 PiB'). parse_bytes_units / parse_timedelta_units (every row of the extracted "
     "tables, any letter case, any supported numeric prefix: int(float(prefix) * multiplier) resp. the exact binary64 "
-    "product), byte_sizes_documented / timedelta_sizes_documented, parse_timedelta_default_unit (a string without "
+    "product), parse_bytes_units_underscore (the same for prefixes with PEP-515 digit separators, e.g. '1_000kB': "
+    "int(float(prefix without its separators) * multiplier); stripUnder_filter / stripUnder_id / stripUnder_leading / "
+    "stripUnder_trailing: separator removal as in CPython's float(), parseBytesU_conservative: without '_' the extended "
+    "model is the old one), byte_sizes_documented / timedelta_sizes_documented, parse_timedelta_default_unit (a string without "
     "trailing letters is read in the default unit exactly as if the unit were written) and parse_timedelta_bare_unit "
     "(a bare unit means one of it), parse_format_roundtrip (every n < 2**60 in a band k: "
     "|parse_bytes(format_bytes(n)) - n| <= k/200 + 321, all binary64 roundings on the way accounted for) and "
@@ -51,7 +54,8 @@ LEVEL_TEXT = (
 LEVEL_NOTE = ("Trusted: Lean kernel + standard axioms; CPython's float formatting/parsing being correctly rounded "
               "(validated by exact string comparison against the integer model on every run); the extractor; the "
               "correspondence harness. Only ASCII input strings; float literal syntax limited to "
-              "[sign]digits[.digits][e[sign]digits].")
+              "[sign]digits[.digits][e[sign]digits], for parse_bytes with PEP-515 digit separators between digits "
+              "(Model/ParseUnder.lean; parse_timedelta with separators stays oracle only).")
 TECHNIQUE = ("Lean 4 proof (monotonicity of the two roundings, band-wise bounds, list-level string reasoning for the "
              "parsers and key_split) over extractor-regenerated tables + exact differential correspondence of the float model")
 ASSUMPTIONS = ["CPython float(), int/int and float/int true division, float*float, float-int and '%.2f' are correctly "
@@ -151,10 +155,15 @@ def case_parse(ctx, inp):
     except ValueError as e:
         impl = [Sym("bad-number" if "as a number" in str(e) else "bad-unit")]
     if "_" in s:
-        # float() accepts PEP-515 digit separators ("1_000"); the literal model does not: documented-multiplier oracle only
-        ctx.branch("parse-underscore-literal-oracle-only")
+        # float() accepts PEP-515 digit separators ("1_000"): Model/ParseUnder.lean (stripUnder in front of the literal grammar)
+        ctx.eq("parse_bytes (digit separators)", ctx.lean(Sym("parse-bytes-u"), s), impl)
+        ctx.branch("parse-underscore-" + str(impl[0]))
     else:
         ctx.eq("parse_bytes", ctx.lean(Sym("parse-bytes"), s), impl)
+        if inp.get("both"):
+            # parseBytesU_conservative: without separators the extended model is the old one
+            ctx.eq("parse_bytes (extended model, no separator)", ctx.lean(Sym("parse-bytes-u"), s), impl)
+            ctx.branch("parse-extended-model-no-separator")
     ctx.branch("parse-" + str(impl[0]))
     if "unit" in inp:
         # documented multiplier, independent of letter case / spaces
@@ -421,8 +430,15 @@ def generate(ctx):
                 yield "parse", {"s": s, "unit": cu, "num": num}
     for num, u in (("1_0", "kB"), ("1_000", "MiB"), ("1_0.5_0", "kiB"), ("1_0e0_1", "B"), ("2_5", "")):
         yield "parse", {"s": num + u, "unit": u, "num": num}
-    for s in ["1__0kB", "_1kB", "1_kB", "1_.5kB"]:
+    for s in ["1__0kB", "_1kB", "1_kB", "1_.5kB", "1._5kB", "1e_5", "1_e5", "1e5_", "1e+_5", "-_1kB", "_", "_kB", "1_0 k_B", "1 _0kB",
+              "1_0e-0_1MB", "+1_2.3_4E0_2", "0_0", "1_2_3_4 B", "._5", "5_.", "1_000_000"]:
         yield "parse", {"s": s}
+    ualpha = "0123456789__..eE+- kMiB"
+    for _ in range(ctx.n(250, 2500)):
+        # random placements of digit separators (valid and refused) around digits, points, exponents, signs, units
+        s = "".join(rng.choice(ualpha) for _ in range(rng.randint(1, 8)))
+        if not _huge_exponent(s.replace("_", "")):
+            yield "parse", {"s": s, "both": True}
     for s in ["", " ", "5 foos", "1.5.3kB", "kB5", "5kB5", "-5kB", "+3MiB", "1e", "e5", ".", "..5", "5 k B", "12abc34", "MB"]:
         yield "parse", {"s": s}
     alphabet = "0123456789.eE+- kKmMgGtTpPiIbBx"
